@@ -50,7 +50,26 @@ def a_stop_discipline(ctx, t):
         for c in ast.walk(ctx.tree.ast(rel)):
             if isinstance(c, ast.Call) and isinstance(c.func, ast.Attribute) and c.func.attr == "stop_event" and len(c.args) == 1:
                 sites.append((rel, c))
-    ctx.floor("C06.a.stop-discipline", SM, "action Stop emission sites", len(sites), 3, ["%s:%d" % (r, c.lineno) for r, c in sites])
+    # every context that ends a flow / a scope must reach a Stop emission site (directly or through a helper)
+    site_fns = {enclosing_function(c).name for r, c in sites if r == SM and enclosing_function(c) is not None}
+
+    def reaches_site(fn, depth=0):
+        if fn.name in site_fns:
+            return True
+        if depth >= 2:
+            return False
+        for c in walk_no_nested(fn):
+            if isinstance(c, ast.Call) and isinstance(c.func, ast.Name) and c.func.id in site_fns:
+                return True
+        return False
+
+    for ctxname in ("_abort_flow", "_finish_flow", "slide"):
+        f = find_function(t, ctxname)
+        ok = f is not None and reaches_site(f)
+        ctx.check("C06.a.stop-contexts", SM, ctxname, "reaches a Stop emission site", ok,
+                  "%s stops the unfinished actions of the flow/scope it ends (directly or through a helper)" % ctxname if ok else
+                  "%s no longer reaches any action Stop emission: actions started by the ending flow/scope keep running" % ctxname, line=(f.lineno if f else 1))
+    ctx.floor("C06.a.stop-discipline", SM, "action Stop emission sites", len(sites), 1, ["%s:%d" % (r, c.lineno) for r, c in sites])
     for rel, c in sites:
         fn = enclosing_function(c)
         unit = qualname(fn)
@@ -110,7 +129,7 @@ def _block_of(stmt):
 
 
 # ---------------------------------------------------------------------------------
-def _effects(fn):
+def _effects(fn, stop_helpers=None):
     """effect kind -> first line number (None when absent)"""
     fs = fn.args.args[1].arg  # flow_state
     eff = {}
@@ -137,8 +156,10 @@ def _effects(fn):
               and any(isinstance(i, ast.If) and "not _is_child_activated_flow" in src(i.test)
                       and any(isinstance(c, ast.Call) and src(c.func) == "_abort_flow" for s in i.body for c in ast.walk(s)) for i in ast.walk(n)))
     eff["abort-children"] = n
+    helpers = set(stop_helpers or ())
     n = first(lambda n: isinstance(n, ast.For) and "%s.action_uids" % fs in src(n.iter)
-              and any(isinstance(c, ast.Call) and isinstance(c.func, ast.Attribute) and c.func.attr == "stop_event" for c in ast.walk(n)))
+              and any(isinstance(c, ast.Call) and ((isinstance(c.func, ast.Attribute) and c.func.attr == "stop_event")
+                                                   or (isinstance(c.func, ast.Name) and c.func.id in helpers)) for c in ast.walk(n)))
     eff["stop-actions"] = n
     n = first(lambda n: isinstance(n, ast.For) and "%s.heads" % fs in src(n.iter)
               and any(isinstance(c, ast.Call) and src(c.func) == "_remove_head_from_event_matching_structures" for c in ast.walk(n)))
@@ -171,7 +192,9 @@ def b_siblings(ctx, t):
     ff = find_function(t, "_finish_flow")
     if fa is None or ff is None:
         raise AnalysisError("_abort_flow/_finish_flow not found", anchor=SM + "::_abort_flow/_finish_flow")
-    ea, ef = _effects(fa), _effects(ff)
+    helpers = {f.name for f in functions(t) if f.name not in ("_abort_flow", "_finish_flow", "slide")
+               and any(isinstance(c, ast.Call) and isinstance(c.func, ast.Attribute) and c.func.attr == "stop_event" for c in ast.walk(f))}
+    ea, ef = _effects(fa, helpers), _effects(ff, helpers)
     for k in ea:
         for name, e, fn in (("_abort_flow", ea, fa), ("_finish_flow", ef, ff)):
             ctx.check("C06.b.effects", SM, name, k, e[k] is not None,
